@@ -42,6 +42,8 @@ class Gen:
         self.f = set(features if features is not None else ALL_FEATURES)
         self.bodies = []          # list of statement lists (index + 1 = body number)
         self.owner = []
+        self.ochain = []          # per body: the knot (and stitch) it lies in
+        self.stitched = {}        # knot -> [stitch names] for knots that consist of stitches
         self.nknots = knots
         self.size = size
         self.knots = {}
@@ -68,6 +70,8 @@ class Gen:
     def body(self, stmts=None):
         self.bodies.append(stmts if stmts is not None else [])
         self.owner.append(self.cur)
+        parts = self.cur.split(".") if self.cur else []
+        self.ochain.append([".".join(parts[:i + 1]) for i in range(len(parts))])
         return len(self.bodies)
 
     def fresh(self, pre):
@@ -132,13 +136,13 @@ class Gen:
             v = r.choice(self.int_vars())
             return {"k": "var", "n": v}, v
         if k < 0.7 and self.has("counts"):
-            targets = list(self.knot_names())
+            targets = list(self.knot_names()) + [x for v in self.stitched.values() for x in v]
             if self.has("labels"):
                 targets += ["%s.%s" % kl for kl in self.labels]
             t = r.choice(targets)
             return {"k": "cnt", "n": t}, t
         if k < 0.76 and self.has("turns"):
-            t = r.choice(list(self.knot_names()))
+            t = r.choice(list(self.knot_names()) + [x for v in self.stitched.values() for x in v])
             return {"k": "ts", "n": t}, "TURNS_SINCE(-> %s)" % t
         if k < 0.8 and self.has("turns"):
             return {"k": "turns"}, "TURNS()"
@@ -346,9 +350,17 @@ class Gen:
         r = self.r
         k = r.random()
         names = self.knot_names()
-        me = int(self.cur[1:]) if self.cur.startswith("k") and self.kinds.get(self.cur, "knot") == "knot" else 0
+        knot = self.cur.split(".")[0]
+        me = int(knot[1:]) if knot.startswith("k") and self.kinds.get(knot, "knot") == "knot" else 0
         plain = [n for n in names if self.kinds.get(n, "knot") == "knot"]
         later = [n for n in plain if int(n[1:]) > me]
+        # stitches: the later stitches of this knot, and any stitch of a later knot
+        if "." in self.cur:
+            sts = self.stitched.get(knot, [])
+            later += [x for x in sts if x > self.cur]
+        for kn in list(later):
+            later += self.stitched.get(kn, []) if self.p(0.5) else []
+        plain = plain + [x for kn in plain for x in self.stitched.get(kn, [])]
         if allow_end and k < 0.2:
             return "END"
         if allow_end and k < 0.3 and self.has("done"):
@@ -638,6 +650,10 @@ class Gen:
             if v["t"] == "bool":
                 return "true" if v["v"] else "false"
             return str(v["v"])
+        if self.has("stitches"):
+            for n in names[1:]:
+                if self.p(0.35):
+                    self.stitched[n] = ["%s.z%d" % (n, j) for j in range(2)]
         src = ["VAR %s = %s" % (g["n"], lit(g["v"])) for g in self.globals]
         self.cur = ""
         root = self.body([{"k": "div", "t": "k0"}])
@@ -653,22 +669,40 @@ class Gen:
                 b = self.body()
                 stmts, lines = self.func_body(params)      # may call the functions generated before it
                 self.bodies[b - 1] = stmts
-                self.knots[name] = {"body": b, "kind": "function", "params": params}
+                self.knots[name] = {"body": b, "kind": "function", "params": params, "chain": [name], "auto": False}
                 fsrc.append("== function %s(%s) ==" % (name, ", ".join(params)))
                 fsrc += lines
                 self.funcs.append({"name": name, "params": params})
         for n in names + [n for n, _ in extra]:
+            if n in self.stitched:
+                # a knot that consists of stitches: diverting to the knot runs its first stitch
+                src.append("== %s ==" % n)
+                first = None
+                for st in self.stitched[n]:
+                    self.cur = st
+                    self.temps = []
+                    self.after_choice = False
+                    b = self.body()
+                    stmts, lines = self.knot_body("knot")
+                    self.bodies[b - 1] = stmts
+                    self.knots[st] = {"body": b, "kind": "knot", "params": [], "chain": [n, st], "auto": False}
+                    first = first or (b, st)
+                    src.append("= %s" % st.split(".")[1])
+                    src += lines
+                self.knots[n] = {"body": first[0], "kind": "knot", "params": [], "chain": [n, first[1]], "auto": True}
+                continue
             self.cur = n
             self.temps = []
             self.after_choice = False
             b = self.body()                     # reserve the number: the knot's body comes first
             stmts, lines = self.knot_body(self.kinds[n])
             self.bodies[b - 1] = stmts
-            self.knots[n] = {"body": b, "kind": self.kinds[n], "params": []}
+            self.knots[n] = {"body": b, "kind": self.kinds[n], "params": [], "chain": [n], "auto": False}
             src.append("== %s ==" % n)
             src += lines
         src += fsrc
-        prog = {"bodies": self.bodies, "knots": self.knots, "globals": self.globals, "root": root, "owner": self.owner}
+        prog = {"bodies": self.bodies, "knots": self.knots, "globals": self.globals, "root": root, "owner": self.owner,
+                "ochain": self.ochain}
         return prog, "\n".join(src) + "\n"
 
 
